@@ -70,6 +70,33 @@ CHECKS += [
  bs("C14", "StaleOnlyObsolete and StaleAllObsolete are TLC invariants over all (previous expected list, current list, roots) combinations of a path family with shared prefixes, trailing separators, relative paths and roots outside the tree, across new frontends with and without the database; in sandboxes the removal notes and the file system after the build must equal the specification's RemoveTree results; the path predicate itself is checked exhaustively at function level (spec/fn/PathPrefix.tla).",
     "TLA+ spec model-checked with TLC + trace validation + TLC-enumerated prefix cases replayed through pathIsPrefixedByPath"),
 ]
+
+def gen(pid, engine, category, text, technique, note, design):
+    return dict(property_id=pid, quick_cmd="./tools/check %s --tier quick" % pid, thorough_cmd="./tools/check %s --tier thorough" % pid,
+                evidence_file="/verif/evidence/%s.json" % pid, replay_cmd_template="./tools/check %s --replay {path}" % pid,
+                engine=engine, level_claimed=dict(category=category, text=text, design_ref=design), level_note=note, technique=technique)
+CHECKS += [
+ gen("C16", "tlc+queue_driver", "model_checking",
+     "TLC explores spec/ExecQueue.tla exhaustively on the scenarios of MC_C16.tla (all interleavings of lanes, client, canceller, destructor and child-process events; ExactlyOnce, LaneBound, CompletionOnce, OutputBeforeCompletion, StatusTable, NoSpawnAfterCancel, ChildrenReaped, deadlock freedom, and Termination/CancelReaps under weak fairness; three deliberately broken variants of the specification must fail); the real lane-based queue, the serial queue and the subprocess layer are bound to it by trace validation (ExecQueueTrace.tla) of seeded multi-threaded scenarios of harness/queue_driver, the queue's unobservable critical sections being internal steps placed by TLC.",
+     "TLA+ spec (ExecQueue.tla) model-checked with TLC incl. liveness + trace validation of real queue/subprocess executions",
+     "Exhaustive only for the bounded scenarios of MC_C16.tla; larger job mixes, real output volumes, signals and the control channel are covered by validated implementation traces (sampled schedules, not all interleavings); environment precedence and output content are checked by a harness-side oracle; the queue's internal lock is not observable, so interval events + internal steps are used.",
+     "DESIGN.md §5, §7 C16, §12.6"),
+ gen("C17", "tlc+llbuild-cli+ninja+parse_driver", "translation_validation",
+     "TLC enumerates (breadth-first on four to eight slices) and samples (simulation) manifest ASTs of a bounded family from spec/fn/NinjaEval.tla - a loader state machine with one action per statement kind - and checks the scoping invariants (BuildShadowsAll, RuleOverFileLazy, FileFallback, InOut, BuildValuesInFileScope, PathsSeeBuildBindings, ScopeTree) and action properties (OnlyCurrentScope, CmdsFinal, ExitRestores) on it; every AST is rendered to text variants (escapes, continuations, CRLF, indentation, high bytes) and loaded by `llbuild ninja load-manifest`; the loaded statements must equal the specification's, path lists modulo shell-quoting style. The specification itself is validated on the same manifests against ninja 1.11.1. Keyword/high-byte lexing (spec/fn/NinjaLex.tla) and the shell quoting round trip (spec/fn/ShellQuote.tla, judged by the real /bin/sh) are enumerated by TLC and replayed through the real functions.",
+     "TLA+ loader state machine (fn/NinjaEval.tla) as enumerator and oracle, replay through `llbuild ninja load-manifest`; differential validation of the specification against the reference ninja; fn/NinjaLex + fn/ShellQuote cases replayed",
+     "Bounded family (<=2 rules, <=2 builds, <=3 bindings per level, <=2 included files); statements whose rule variables read a file-level variable that is re-bound later are compared without their rule-variable strings (the property's exclusion); quoting style of $in/$out left open; ninja 1.11.1 deviates from its manual in two places, llbuild is held to the manual.",
+     "DESIGN.md §6, §7 C17, §12.6"),
+ gen("C18", "tlc+llbuild-cli+ninja", "model_checking",
+     "TLC checks the six C18 invariants (NinjaOutputsClean, NinjaNullBuild, OrderOnlyOrdersButNeverTriggers, ImplicitAndDepfileTrigger, CommandLineChangeReruns, FailureStopsAndRetries) on spec/NinjaBuild.tla for 9 manifest families x all histories within MC_C18_<tier>.cfg; every sandbox run of `llbuild ninja build` (hand-written scenarios + seeded random manifests/histories, --jobs 1/4, -k 1/0, database / --no-db, logical clock) is validated against the specification (NinjaBuildTrace.tla) including the decoded build.db, with the invariants evaluated in every state; the reference ninja gives a second opinion on the specification's clean-build oracle.",
+     "TLA+ spec (NinjaBuild.tla) model-checked with TLC + trace validation of CLI runs under a logical clock",
+     "Exhaustive only inside the bounded manifest families and history bounds and under the canonical schedule; larger manifests, --jobs 4 and -k 0 only through validated implementation traces; the null-build clause is stated with the database only; strict mode, rspfile, console pool not modelled.",
+     "DESIGN.md §4.2, §7 C18, §12.6"),
+ gen("C19", "tlc+parse_driver(asan)", "exploration",
+     "Bounded-exhaustive: every byte string up to 4-8 bytes over the format-special alphabet of each hand-written parser (TLC-enumerated from spec/fn/NinjaLex.tla, MakeDeps.tla, DepInfo.tla with the expected result of the transcribed function and the Tiling / EOFOnlyAtEnd / KeywordsWholeWord / RoundTrip / MalformedReported / OperandsWithinBuffer invariants checked on the specification), ~42k grammar mutants of valid manifests and dependency files and 1.3k YAML shapes (spec/fn/BuildFileShape.tla), each replayed through the real parser in an exact-size heap buffer on a plain build (comparison with the specification) and an ASan+UBSan build with a per-input CPU alarm (memory safety, hangs).",
+     "function-level TLA+ specifications as enumerator and oracle; conformance by replay (harness/parse_driver) on plain and sanitizer builds",
+     "Not coverage-guided (this family of technique has no counterpart to a fuzzer): lengths and alphabets bounded; YAML varied by shape only; include cycles and tool-specific attributes not judged.",
+     "DESIGN.md §6, §7 C19, §10, §12.6"),
+]
 NA = []
 claimed = {c["property_id"] for c in CHECKS}
 for i in range(1, 21):
@@ -81,6 +108,9 @@ m = dict(version=1, setup_cmd="./tools/setup",
                     baseline_off_cmd="/verif/tools/baseline_off.sh", source_commits=HOOK_COMMITS, add_only=True),
          engines=[dict(name="tlc", path="/opt/veriftools/tla/tla2tools.jar", serves_properties=sorted(claimed), kind_free_text="TLC model checker on spec/*.tla (exhaustive configurations and trace validation)"),
                   dict(name="engine_driver", path="/verif/harness/engine_driver.cpp", serves_properties=["C01","C02","C03","C04","C05","C06","C07"], kind_free_text="scripted-program client of core::BuildEngine that records every API event as ndjson"),
+                  dict(name="queue_driver", path="/verif/harness/queue_driver.cpp", serves_properties=["C16"], kind_free_text="scenario driver for the real lane-based/serial execution queues and the subprocess layer"),
+                  dict(name="parse_driver", path="/verif/harness/parse_driver.cpp", serves_properties=["C17", "C19"], kind_free_text="replays TLC-enumerated inputs through the Ninja lexer/loader, the dependency-file parsers, shell quoting and the build-file loader in exact-size buffers (plain + ASan/UBSan builds)"),
+                  dict(name="ninja_driver", path="/verif/tools/ninja_driver.py", serves_properties=["C18"], kind_free_text="sandbox driver for `llbuild ninja build` histories under a logical clock; decodes build.db"),
                   dict(name="bs_driver", path="/verif/harness/bs_driver.cpp", serves_properties=["C08","C09","C10","C11","C12","C14"], kind_free_text="BuildSystemFrontend client: executes generated descriptions and histories in sandboxes and records callbacks, database rows and file-system changes as ndjson")],
          checks=CHECKS, not_applicable=NA,
          notes="Every check rebuilds /repo's working tree out of tree with the hooks enabled (tools/build.sh), runs TLC on the property's configuration of the specification, runs the real code and validates its recorded traces against the specification. Known findings: known_findings.jsonl.")
